@@ -41,7 +41,7 @@ input Filter { name: String = "n" kinds: [Kind!] = [DOG] sub: Filter min: Int! =
 input OneIn @oneOf { a: Int b: String }
 scalar Date
 directive @tag(name: String!, n: Int) repeatable on FIELD | QUERY | MUTATION | SUBSCRIPTION | FRAGMENT_SPREAD | INLINE_FRAGMENT | FRAGMENT_DEFINITION | VARIABLE_DEFINITION
-directive @once(v: Int = 1) on FIELD | QUERY | FRAGMENT_DEFINITION
+directive @once(v: Int = 1, w: Float = 2) on FIELD | QUERY | FRAGMENT_DEFINITION
 `,
 	// S2: minimal, default root names, no mutation, no subscription
 	`type Query { a: Int b(x: Int): String q: Query }
